@@ -24,6 +24,10 @@ pub struct TxnObs {
     pub staleness: bool,
     pub rejected: bool,
     pub isolation: bool,
+    /// S + exact search on every index that opens (C18 after a metric change and rebuild)
+    pub forest: bool,
+    /// C18: the clauses on prepare_changing_distance itself
+    pub metric_change: bool,
 }
 
 #[derive(Clone, Debug)]
@@ -31,6 +35,8 @@ pub struct TxnCfg {
     pub indexes: Vec<(u16, Metric, usize)>,
     /// the static action menu (item operations and builds; Commit / Abort are added when enabled)
     pub menu: Vec<Action>,
+    /// executed before the exploration starts (the initial state is the state after it)
+    pub prefix: Vec<Action>,
     pub transactions: bool,
     pub max_depth: usize,
     pub obs: TxnObs,
@@ -44,9 +50,10 @@ impl TxnCfg {
         json!({
             "indexes": self.indexes.iter().map(|(i, m, d)| json!({"index": i, "metric": m.short(), "dim": d})).collect::<Vec<_>>(),
             "menu": self.menu.iter().map(|a| a.to_json()).collect::<Vec<_>>(),
+            "prefix": self.prefix.iter().map(|a| a.to_json()).collect::<Vec<_>>(),
             "transactions": self.transactions,
             "max_depth": self.max_depth,
-            "obs": {"store": self.obs.store, "staleness": self.obs.staleness, "rejected": self.obs.rejected, "isolation": self.obs.isolation},
+            "obs": {"store": self.obs.store, "staleness": self.obs.staleness, "rejected": self.obs.rejected, "isolation": self.obs.isolation, "forest": self.obs.forest, "metric_change": self.obs.metric_change},
             "probe_ids": self.probe_ids,
             "label": self.label,
         })
@@ -66,6 +73,7 @@ impl TxnCfg {
                 })
                 .collect(),
             menu: v["menu"].as_array()?.iter().filter_map(Action::from_json).collect(),
+            prefix: v["prefix"].as_array().map(|a| a.iter().filter_map(Action::from_json).collect()).unwrap_or_default(),
             transactions: v["transactions"].as_bool().unwrap_or(true),
             max_depth: v["max_depth"].as_u64()? as usize,
             obs: TxnObs {
@@ -73,6 +81,8 @@ impl TxnCfg {
                 staleness: v["obs"]["staleness"].as_bool().unwrap_or(false),
                 rejected: v["obs"]["rejected"].as_bool().unwrap_or(false),
                 isolation: v["obs"]["isolation"].as_bool().unwrap_or(false),
+                forest: v["obs"]["forest"].as_bool().unwrap_or(false),
+                metric_change: v["obs"]["metric_change"].as_bool().unwrap_or(false),
             },
             probe_ids: v["probe_ids"].as_array()?.iter().map(|x| x.as_u64().unwrap_or(0) as u32).collect(),
             label: v["label"].as_str().unwrap_or("").to_string(),
@@ -138,6 +148,11 @@ fn outcome_matches(e: &Expect, o: &Outcome) -> bool {
     }
 }
 
+thread_local! {
+    /// committed content and model after the prefix, computed once per worker process
+    static PREFIX_CACHE: std::cell::RefCell<Option<(Kv, Model)>> = const { std::cell::RefCell::new(None) };
+}
+
 /// The replayed world: one environment, its committed content and the open write transaction.
 struct World<'e> {
     db: RawDb,
@@ -149,19 +164,29 @@ struct World<'e> {
 }
 
 impl<'e> World<'e> {
-    fn new(env: &'e heed::Env, db: RawDb, cfg: &TxnCfg) -> World<'e> {
-        // reset the environment with a real transaction
+    /// Resets the environment with a real transaction: empty, or — when the configuration
+    /// has a prefix (which must end with a commit) — to the committed content the prefix
+    /// produced when it was really executed once in this worker.
+    fn new(env: &'e heed::Env, db: RawDb, cfg: &TxnCfg, preload: Option<&(Kv, Model)>) -> World<'e> {
         let mut w = env.write_txn().expect("wtxn");
         db.clear(&mut w).expect("clear");
+        let (model, kv) = match preload {
+            Some((kv, model)) => {
+                for (k, v) in kv {
+                    db.put_with_flags(&mut w, heed::PutFlags::APPEND, k, v).expect("preload");
+                }
+                (model.clone(), kv.clone())
+            }
+            None => (Model::with(&cfg.indexes), Vec::new()),
+        };
         w.commit().expect("commit");
-        let model = Model::with(&cfg.indexes);
         World {
             db,
             env,
             wtxn: Some(env.write_txn().expect("wtxn")),
             committed_model: model.clone(),
             model,
-            committed_kv: Vec::new(),
+            committed_kv: kv,
         }
     }
 
@@ -228,14 +253,14 @@ impl System for TxnSystem {
         self.cfg.to_json()
     }
     fn initial(&self) -> Vec<TState> {
-        let m = Model::with(&self.cfg.indexes);
-        vec![TState { history: Vec::new(), key: self.state_key(&Vec::new(), &Vec::new(), &m, &m, 0) }]
+        // the prefix is part of every history; its state key is a sentinel (never produced by a dump)
+        vec![TState { history: self.cfg.prefix.clone(), key: 0 }]
     }
     fn key(&self, s: &TState) -> u128 {
         s.key
     }
     fn actions(&self, s: &TState) -> Vec<Action> {
-        if s.history.len() >= self.cfg.max_depth {
+        if s.history.len() >= self.cfg.max_depth + self.cfg.prefix.len() {
             return Vec::new();
         }
         let mut v = self.cfg.menu.clone();
@@ -261,8 +286,21 @@ impl System for TxnSystem {
     fn step(&self, w: &mut Worker, s: &TState, a: &Action, seen: &Seen) -> Step<TState> {
         let cfg = &self.cfg;
         let env = w.scratch.env.clone();
-        let mut world = World::new(&env, w.scratch.db, cfg);
-        for h in &s.history {
+        let n_prefix = cfg.prefix.len();
+        if n_prefix > 0 && PREFIX_CACHE.with(|c| c.borrow().is_none()) {
+            assert!(matches!(cfg.prefix.last(), Some(Action::Commit)), "a prefix must end with a commit");
+            let mut world = World::new(&env, w.scratch.db, cfg, None);
+            for h in &cfg.prefix {
+                let o = world.apply(h);
+                assert!(o.is_ok(), "the prefix action {h:?} failed: {}", o.describe());
+            }
+            let done = (world.committed_kv.clone(), world.committed_model.clone());
+            drop(world);
+            PREFIX_CACHE.with(|c| *c.borrow_mut() = Some(done));
+        }
+        let preload = PREFIX_CACHE.with(|c| c.borrow().clone());
+        let mut world = World::new(&env, w.scratch.db, cfg, preload.as_ref());
+        for h in &s.history[n_prefix.min(s.history.len())..] {
             let _ = world.apply(h);
         }
         let before = world.dump();
@@ -331,6 +369,32 @@ impl System for TxnSystem {
                 }
             }
             _ => {}
+        }
+        if let (true, Action::ChangeMetric { index, to }) = (cfg.obs.metric_change, a) {
+            let from = model_before.indexes[index].metric;
+            if from == *to {
+                if before != after {
+                    violations.push(Violation::new(
+                        "MC/same-metric-changed",
+                        format!("prepare_changing_distance to the same metric {} changed the database: {}", to.short(), diff_summary(&before, &after)),
+                    ));
+                }
+                w.count("metric_change_same", 1);
+            } else {
+                let left: Vec<String> = after
+                    .iter()
+                    .filter_map(|(k, _)| parse_key(k).ok())
+                    .filter(|k| k.index == *index && (k.kind == crate::layout::KIND_TREE || (k.kind == crate::layout::KIND_METADATA && k.id == 0)))
+                    .map(|k| format!("({},{},{})", k.index, k.kind, k.id))
+                    .collect();
+                if !left.is_empty() {
+                    violations.push(Violation::new(
+                        "MC/forest-left",
+                        format!("after changing index {index} from {} to {} tree/metadata keys remain: {left:?}", from.short(), to.short()),
+                    ));
+                }
+                w.count("metric_change_real", 1);
+            }
         }
         let mut history = s.history.clone();
         history.push(a.clone());
@@ -521,6 +585,19 @@ fn observe_index(cfg: &TxnCfg, db: RawDb, rtxn: &RoTxn, index: u16, ix: &IndexMo
                     "NeedBuild" => w.count("open_need_build", 1),
                     _ => w.count("open_missing_metadata", 1),
                 }
+            }
+            if cfg.obs.forest && built && !ix.stale {
+                drop(open);
+                let dix = decode_index(kv, index, metric, dim).map_err(|m| ("F/undecodable".to_string(), m))?;
+                let expect: std::collections::BTreeSet<u32> = ix.items.keys().copied().collect();
+                crate::oracle::structure(&dix, &expect, metric, dim)?;
+                let mut qvecs: Vec<Vec<u32>> = ix.items.values().cloned().collect();
+                qvecs.push((0..dim).map(|j| if j % 2 == 0 { 1.0f32 } else { -2.0f32 }.to_bits()).collect());
+                qvecs.sort();
+                qvecs.dedup();
+                crate::hist::exact_search_on(metric, dim, index, db, rtxn, &ix.items, &qvecs, w)?;
+                w.count("forests_checked", 1);
+                return Ok(());
             }
             if cfg.obs.store {
                 if let Ok(reader) = &open {
